@@ -275,7 +275,15 @@ func sortCallbacks(cs []*callback) (fns []func(*DB), err error) {
 		names = append(names, c.name)
 	}
 
+	depth := 0
 	sortCallback = func(c *callback) error {
+		// before/after requests that form a cycle would recurse for ever
+		depth++
+		defer func() { depth-- }()
+		if depth > 2*len(cs)+2 {
+			return fmt.Errorf("conflicting callback %s with cyclic before/after", c.name)
+		}
+
 		if c.before != "" { // if defined before callback
 			if c.before == "*" && len(sorted) > 0 {
 				if curIdx := getRIndex(sorted, c.name); curIdx == -1 {
